@@ -946,11 +946,13 @@ class Origins:
     arguments are leaves; locals with several definitions become phi nodes over their
     definitions (each expanded once; cycles cut with a `local` leaf)."""
 
-    def __init__(self, body, max_depth=80):
+    def __init__(self, body, max_depth=80, only_blocks=None):
         self.b = body
         self.max_depth = max_depth
         self._cache = {}
         self._busy = set()
+        # path view: only definitions in these blocks count (origin trees along one concrete CFG path have no phi nodes)
+        self.only = set(only_blocks) if only_blocks is not None else None
 
     def operand(self, o, depth=0, stack=()):
         if "const" in o:
@@ -997,6 +999,10 @@ class Origins:
         if depth > self.max_depth or l in self._busy:
             return Node("local", b.lname(l))
         ds = b.defs.get(l, [])
+        if self.only is not None:
+            ds = [d for d in ds if d[0] in self.only]
+            if not ds and 1 <= l <= b.arg_count:
+                return Node("arg", l)
         whole = [d for d in ds if d[2] != "partial"]
         if not whole:
             if l == 0:
